@@ -150,7 +150,8 @@ Definition PInv (c : cfg) (s : state) : Prop :=
   | Idle => True
   | Looking reqs _ | VerWait reqs _ => nsp s = 0 /\ sorted_lt (ids reqs)
   | Sending pls cur =>
-      pls_wf pls /\ NoDup cur /\ incl cur (map p_tp pls) /\ 1 <= nsp s <= attempts s /\ (nsp s = 1 \/ attempts s <= c_max c)
+      pls_wf pls /\ NoDup cur /\ incl cur (map p_tp pls) /\ 1 <= nsp s <= attempts s /\ (nsp s = 1 \/ attempts s <= c_max c) /\
+      (nsp s = 1 -> cur = map p_tp pls)          (* the first attempt carries every payload *)
   | RetryWait pls cur _ =>
       pls_wf pls /\ NoDup cur /\ incl cur (map p_tp pls) /\ 1 <= nsp s <= attempts s /\ attempts s < c_max c
   end.
